@@ -2,7 +2,7 @@
    layer's Put was called with the DECLARED digest and a stream that is exactly the (decoded) payload,
    and accepted it — so by Disk_ack the payload's logical bytes have the declared length and hash.
    The only other ways to an OK are spelled out in each statement (already present; the empty blob
-   with no data; and the BatchUpdateBlobs unsupported-compressor hole, see C01_paths). *)
+   with no data). *)
 From BR Require Import Base.Prelude Model.LRU Model.Disk Proofs.Disk_ack Model.Front Proofs.Front_base.
 Open Scope Z_scope.
 
@@ -43,13 +43,12 @@ Qed.
 Definition bu_good (e : bu_entry) : Prop :=
   body_good (bu_body e) (bu_size e) \/ empty_claim (bu_hash e) (bu_size e) (b_len (bu_body e)).
 
-(* per blob: OK means good — unless the compressor is neither IDENTITY nor ZSTD, in which case the
-   code answers OK WITHOUT storing anything (gRPCErrCode(nil, ...) = OK) *)
+(* per blob: OK means good (an unsupported compressor is answered InvalidArgument) *)
 Lemma bu_one_sound c d e d' :
-  bu_one c d e = (d', SOk) -> (exists n, bu_comp e = COther n) \/ bu_good e.
+  bu_one c d e = (d', SOk) -> bu_good e.
 Proof.
   unfold bu_one. intros H.
-  destruct (bu_comp e) as [| |n] eqn:EC; [right|right|left; eexists; reflexivity].
+  destruct (bu_comp e) as [| |n] eqn:EC; [| |inversion H].
   - cbn in H. dif H.
     destruct (disk_put c d CAS (bu_hash e) (b_len (bu_body e)) (stream_of (bu_body e)) (bu_rnd e)) as [d1 r0] eqn:HP.
     inversion H; subst. apply put_status_ok in H2. subst r0.
@@ -67,7 +66,7 @@ Proof.
 Qed.
 
 Definition bu_entry_ok (e : bu_entry) (s : status) : Prop :=
-  s = SOk -> (exists n, bu_comp e = COther n) \/ bu_good e.
+  s = SOk -> bu_good e.
 
 Lemma batch_update_sound c : forall es d acc d' l,
   batch_update c d es acc = (d', SOk, l) ->
@@ -86,7 +85,7 @@ Qed.
 Lemma bs_write_sound c d nm msgs ab b rnd d' :
   bs_write c d nm msgs ab b rnd = (d', SOk) ->
   exists z hash size, nm = WN z hash size /\ 0 <= size <= fc_grpc_max c /\ validate_hash hash size = true /\
-    (snd (fst (disk_contains c d CAS hash size)) = true                       (* already present: nothing written *)
+    (bs_shortcut (snd (fst (disk_contains c d CAS hash size))) hash size = true   (* already present (and not the empty digest): nothing written *)
      \/ (exists piped, recv_loop z size 0 true msgs ab = (piped, None) /\
            if z then body_good b size \/ empty_claim hash size (b_len b)
            else (piped = size /\ b_hash_ok b = true) \/ empty_claim hash size piped)).
@@ -98,7 +97,7 @@ Proof.
   apply negb_false_iff in E0.
   split; [reflexivity|]. split; [lia|]. split; [exact E0|].
   destruct (disk_contains c d CAS hash size) as [[d1 ex] fs] eqn:EC. cbn [fst snd].
-  destruct ex; [left; reflexivity|right].
+  destruct (bs_shortcut ex hash size) eqn:ESC; [left; reflexivity|right].
   dif H.
   destruct (recv_loop z size 0 true (m0 :: rest) ab) as [piped e] eqn:ER.
   destruct (disk_put c d1 CAS hash size
